@@ -238,21 +238,65 @@ def run(ctx, anchors=None):
             ctx.instances.append(dict(i, rule="R12.4"))
     # ---- R12.5
     fprint = fb.fn("fn_print")
-    txt = " ".join(astq.estr(n) for n in fprint.nodes() if n["k"] == "cond")
+    # every read of the line array, wherever it was moved to, is bounded by the line count; the echo after step / rewind is
+    # indexed by the position counter
+    reads = []
+    for f in fb.funcs.values():
+        if f.file != "functions.cpp" or f.body is None:
+            continue
+        for n in f.nodes():
+            base = idx = None
+            if n["k"] == "index":
+                base, idx = n["base"], n["idx"]
+            elif n["k"] == "opcall" and n.get("op") == "[]" and len(n["args"]) == 2:
+                base, idx = n["args"]
+            if base is None or not any(x["k"] == "ref" and x["n"] == "script_lines" and x.get("dk") == "global" for x in walk(base)):
+                continue
+            reads.append((f, n, idx))
+    ctx.floor("R12.5", len(reads), 2, "reads of script_lines[...] in functions.cpp")
+    echo_fns = set()
+    for (f, n, idx) in reads:
+        it = astq.estr(idx)
+        fcfg = f.cfg()
+        bounded = False
+        for (c, t) in fcfg.guards_of(n):
+            cn = f.node_by_id(c)
+            if cn is None or t is not True:
+                continue
+            for cj in S.conjuncts(cn):
+                txt = astq.estr(cj).replace(" ", "")
+                if txt in ("(%s<count)" % it.replace(" ", ""), "(count>%s)" % it.replace(" ", "")):
+                    bounded = True
+        ctx.site()
+        if it.endswith("curr_op_seq"):
+            echo_fns.add(f.name)
+        ctx.inst(bounded, "R12.5", "echo-bounded:" + f.name, f.loc(n), "%s reads script_lines[%s] only when %s < count" % (f.name, it, it),
+                 "%s echoes script_lines[%s] without the `%s < count` guard (reads past the line array after the last operation)" % (f.name, it, it))
+    # `print`: a loop over the lines, the marker is shown on the line whose index equals the position counter
+    pr = [(n, astq.estr(idx)) for (f, n, idx) in reads if f is fprint]
+    marks = []
+    for (n, it) in pr:
+        for c in fprint.nodes():
+            if c["k"] == "cond":
+                txt = astq.estr(c["cond"]).replace(" ", "")
+                if txt in ("(%s==env->curr_op_seq)" % it, "(env->curr_op_seq==%s)" % it) and any(a.get("k") in ("for", "while", "forrange") and S.contains(a, n) for a in fprint.ancestors(c)):
+                    marks.append(c)
     ctx.site()
-    ctx.inst("(i == env->curr_op_seq)" in txt, "R12.5", "print-marker-at-counter", fprint.loc(), "`print` marks line i iff i == curr_op_seq")
-    loops = [n for n in fprint.nodes() if n["k"] == "for"]
-    ctx.inst(bool(loops) and astq.estr(loops[0]["cond"]) == "(i < count)", "R12.5", "print-lists-count-lines", fprint.loc(), "`print` lists exactly `count` lines")
+    ctx.inst(bool(marks), "R12.5", "print-marker-at-counter", fprint.loc(), "`print` marks line i iff i == curr_op_seq",
+             "`print` does not place the marker on the line whose index equals curr_op_seq")
+    ctx.inst(bool(pr), "R12.5", "print-lists-count-lines", fprint.loc(), "`print` lists the lines of the array (bounded by `count`, see echo-bounded:fn_print)")
+    # step and rewind both reach an echo of the line at the position counter
     for fname in ("fn_step", "fn_rewind"):
         f = fb.fn(fname)
-        echo = [n for n in f.nodes() if n["k"] == "call" and n.get("n") == "printf" and "script_lines[env->curr_op_seq]" in astq.estr(n)]
-        ok = False
-        if echo:
-            g = [("" if t else "!") + astq.estr(c) for (c, t) in S.ast_guards(f, echo[0])]
-            ok = any("env->curr_op_seq < count" in x and not x.startswith("!") for x in g)
+        reach = {f.name}
+        for n in f.nodes():
+            if astq.is_call(n) and n.get("cid"):
+                for g in prog.resolve(n["cid"]):
+                    if g.file == "functions.cpp":
+                        reach.add(g.name)
         ctx.site()
-        ctx.inst(ok, "R12.5", "echo-bounded:" + fname, f.loc(echo[0]) if echo else f.loc(), "%s echoes script_lines[curr_op_seq] only when curr_op_seq < count" % fname,
-                 "%s echoes script_lines[curr_op_seq] without the `curr_op_seq < count` guard (reads past the line array after the last operation)" % fname)
+        ctx.inst(bool(reach & echo_fns), "R12.5", "echo-at-counter:" + fname, f.loc(), "%s echoes the line at the position counter" % fname,
+                 "%s no longer echoes script_lines[curr_op_seq]" % fname)
 
 
 MUTANTS = [
